@@ -47,7 +47,9 @@ func (in *Interp) unop(fr *frame, instr *ssa.UnOp, x Value) Value {
 		}
 		return v
 	case token.ARROW:
-		v, ok := in.chanRecv(x.(*Chan), true)
+		rc, _ := x.(*Chan)
+		in.schedWaitRecv(rc)
+		v, ok := in.chanRecv(rc, true)
 		if instr.CommaOk {
 			if v == nil {
 				v = in.zero(instr.X.Type().Underlying().(*types.Chan).Elem())
@@ -964,6 +966,7 @@ func (in *Interp) chanRecv(c *Chan, blocking bool) (Value, bool) {
 
 func (in *Interp) selectOp(fr *frame, instr *ssa.Select) Value {
 	tt := in.tt
+	in.schedWaitSelect(fr, instr)
 	chosen := -1
 	var recv Value
 	recvOk := false
